@@ -366,7 +366,27 @@ func (c *Ctx) ord2() {
 							okW = true
 						}
 					}
-					if okW {
+					// the new value counts exactly this sequence number as submitted: seqNo + 1
+					exact := false
+					if st, ok := e.Instr.(*ssa.Store); ok {
+						if bo, ok := strip(st.Val).(*ssa.BinOp); ok && bo.Op == token.ADD && isK(bo.Y, 1) && isInd(bo.X) {
+							exact = true
+						}
+						if call, ok := strip(st.Val).(*ssa.Call); ok {
+							if bl, ok := call.Call.Value.(*ssa.Builtin); ok && bl.Name() == "max" {
+								exact = true // max(submitN, seqNo+1): judged by its operands below
+								exact = false
+								for _, a := range call.Call.Args {
+									if bo, ok := strip(a).(*ssa.BinOp); ok && bo.Op == token.ADD && isK(bo.Y, 1) && isInd(bo.X) {
+										exact = true
+									}
+								}
+							}
+						}
+					}
+					if okW && !exact {
+						subm.fail(p, i, "submitN is set to %s, want the sequence number just written plus one: one too few and the next retransmission of this packet lacks DUP, one too many and a first transmission carries it", Expr(e.Val))
+					} else if okW {
 						subm.pass()
 					} else {
 						subm.fail(p, i, "submitN is advanced before the packet was written with a nil result: a resend that fails here counts as submitted, and the first real transmission carries DUP")
@@ -846,11 +866,6 @@ func (c *Ctx) ord5() {
 		}
 	}
 	skip.done(8, "behind every stream, handler and acknowledgement call the error is nil, returned, or answered by the reset")
-	for _, name := range []string{"(*Client).peekPacket", "(*Client).discard", "(*Client).handshake", "(*Client).resend"} {
-		if fn := c.Fn("ORD-5", name); fn != nil {
-			c.errorsNotSkippedIO("ORD-5", fn)
-		}
-	}
 	for _, a := range byOrigin {
 		a.done(1, "every such return passes toOffline")
 	}
@@ -922,7 +937,22 @@ func (c *Ctx) errorsNotSkippedIO(rule string, fn *ssa.Function) {
 		if e.Callee != nil && wire[e.Callee] {
 			return true
 		}
-		return persistenceOp(e) == "Load"
+		switch persistenceOp(e) {
+		case "Load", "List", "Save":
+			return true
+		}
+		// the operating system, in the file store
+		if e.Callee != nil && e.Callee.Pkg != nil && e.Callee.Pkg.Pkg.Path() == "os" && pathx.ErrResult(e.Result) != nil {
+			switch stdName(e.Callee) {
+			case "(*os.File).Close", "os.Remove":
+				return fn.Name() == "Delete" && stdName(e.Callee) == "os.Remove" // elsewhere these clean up behind a failure
+			}
+			return true
+		}
+		if stdName(e.Callee) == "(*net.Buffers).WriteTo" {
+			return true
+		}
+		return false
 	}
 	for _, p := range c.Paths(rule, fn) {
 		for i := range p.Events {
@@ -958,9 +988,27 @@ func (c *Ctx) errorsNotSkippedIO(rule string, fn *ssa.Function) {
 							continue
 						}
 					}
+					if name == "(*os.File).Close" {
+						continue // releasing the descriptor is no use of the outcome
+					}
+					if isInvoke(n, "net.Conn", "Close") || name == "os.Remove" || name == "(*os.File).Name" {
+						if rl, _, kn := p.Known(er, i, k); kn && rl == pathx.RNotNil {
+							continue // cleaning up behind a failure that was noticed
+						}
+					}
 					j = k
 				case pathx.KLoopBack, pathx.KReturn:
 					j = k
+				}
+			}
+			// an error recognised as a tolerated kind (errors.Is/As true) has been examined
+			classified := false
+			for k := i + 1; k < len(p.Events) && (j < 0 || k < j); k++ {
+				x := &p.Events[k]
+				if x.Kind == pathx.KCall && (stdName(x.Callee) == "errors.Is" || stdName(x.Callee) == "errors.As") {
+					if rl, _, kn := p.Known(x.Result, k, -1); kn && rl == pathx.RTrue {
+						classified = true
+					}
 				}
 			}
 			if j < 0 {
@@ -970,6 +1018,8 @@ func (c *Ctx) errorsNotSkippedIO(rule string, fn *ssa.Function) {
 			rel, _, known := p.Known(er, i, j)
 			switch {
 			case known && rel == pathx.RNil:
+				a.pass()
+			case classified:
 				a.pass()
 			case n.Kind == pathx.KReturn && retErr(p, j) != triNil:
 				a.pass()
@@ -981,4 +1031,16 @@ func (c *Ctx) errorsNotSkippedIO(rule string, fn *ssa.Function) {
 		}
 	}
 	a.done(2, "behind every I/O call the error is nil, returned, or a tolerated expiry")
+}
+
+// ---- ERR-8: no error of the stream, the store or the operating system is stepped over ----
+
+func init() {
+	register("ERR-8", []string{"ERR-8"}, func(c *Ctx, _ map[string]bool) {
+		for _, name := range []string{"(*Client).peekPacket", "(*Client).discard", "(*Client).handshake", "(*Client).resend", "initSession", "AdoptSession", "(*Client).dialAndConnect", "(fileSystem).List", "(fileSystem).Load", "(fileSystem).Save", "(fileSystem).Delete"} {
+			if fn := c.Fn("ERR-8", name); fn != nil {
+				c.errorsNotSkippedIO("ERR-8", fn)
+			}
+		}
+	})
 }
